@@ -64,6 +64,16 @@ NOTES = {
     "C19_k": "no format-string characters in names: `%s`, `50%`, `{0}`, `%(x)s`, newline, backslash",
     "C08_l": "NOT detected - outside the quantifier (the coordinate on an axis of extent 0, which the statement leaves open: containment and landing are claimed for axes of positive extent; DESIGN 3.2)",
 }
+NOTES.update({
+    "C05_m": "the harness itself was killed (no verdict): the change makes a system run for ever and the driver logged until memory ran out; driver programs now run under a time / memory budget and a runaway program is a violation",
+    "C07_n": "all systems of the stochastic model had distinct priorities: a one-shot system that unregisters itself and four systems sharing one priority",
+    "C10_m": "returned neighbourhood lists were never edited in C10's runs: every returned list is reversed and shortened by the driver",
+    "C11_n": "integer arrays only: float64 arrays with values that no narrower float type represents, compared as doubles",
+    "C12_n": "coincident agents and exact point queries were rare: placements and moves onto another agent's spot, zero-leeway queries at an agent's position",
+    "C18_m": "every entry named its module: descriptions whose hooks and / or classes omit `module` (documented default `__main__`)",
+    "C20_m": "a fresh component object per class attachment: one object attached to several classes (a serial names one object)",
+    "C20_n": "the tag argument was either given or omitted: `tag=None` spelled out, by keyword and by position",
+})
 ROUNDS = "abcdefghijklmnopqrstuvwxyz"
 
 
@@ -95,9 +105,9 @@ def main():
         firsts[rnd] = firsts.get(rnd, 0) + (1 if missed else 0)
     head = ("\n### 11.5 Independently seeded changes (`/verif/seeded/<id>/`)\n\n"
             f"{total} changes were produced in {max(firsts)} rounds by fresh sub-agents that saw only the text of one property and a scratch worktree "
-            "(two per property and round; ids `_a`,`_b` = round 1, `_c`,`_d` = round 2, `_e`,`_f` = round 3, `_g`,`_h` = round 4, `_i`,`_j` = round 5, `_k`,`_l` = round 6; the agents of later rounds were told "
+            "(two per property and round; ids `_a`,`_b` = round 1, `_c`,`_d` = round 2, `_e`,`_f` = round 3, `_g`,`_h` = round 4, `_i`,`_j` = round 5, `_k`,`_l` = round 6, `_m`,`_n` = round 7; the agents of later rounds were told "
             "what the earlier rounds had produced and asked for something different; round 4 was asked to stay strictly inside the quantifier text, "
-            "round 5 to look for the least obvious failure, round 6 to prefer code no earlier change had touched). Each passes the 110 tests, and its demonstration fails with the change and passes without it "
+            "round 5 to look for the least obvious failure, round 6 to prefer code no earlier change had touched, round 7 to look for interactions of two features and boundary values). Each passes the 110 tests, and its demonstration fails with the change and passes without it "
             "(re-confirmed by `tools/seedcheck.py import`). `tools/seedcheck.py run` applies a patch to `/repo`, runs the property's quick check "
             "and undoes it (`git checkout -- .`); `run --scratch` does the same on a scratch copy (`VERIF_REPO`) so that runs can go in parallel. "
             f"**{own} of the {total} are detected by the quick check of their own property** (`result_quick.json`, current checks), {other} by the check of the "
